@@ -117,6 +117,7 @@ def loss_case(driver, seed, part, i, res, base_times):
     outcomes = {}
     frames_t = {}
     tstate = {"detect": None}
+    with_sequence = i % 4 == 1
 
     async def caller(c):
         k = 0
@@ -130,17 +131,50 @@ def loss_case(driver, seed, part, i, res, base_times):
             k += 1
             await asyncio.sleep(0.02)
 
+    seq_out = {}
+
+    async def seq_caller():
+        # a sequence that spends most of its time asleep: the gateway vanishes while nothing is in flight and may still be
+        # gone when the next command is due - the sequence then waits for it, or ends with CommunicationError
+        from dali import sequences as _S
+        cmds_ = [simlib.make_command(r, "query", 3, 8 + k, driver) for k in range(4)]
+
+        def g():
+            got_ = []
+            for c_ in cmds_:
+                got_.append((yield c_))
+                yield _S.sleep(0.35)
+            return got_
+        seq_out["cmds"] = cmds_
+        try:
+            seq_out["result"] = ("ok", await sim.driver.run_sequence(g()))
+        except Exception as e:
+            seq_out["result"] = ("exc", e)
+
+    def renumbered_restore():
+        # the gateway comes back under another node name that still matches the pattern (hidraw renumbering)
+        sim.shim.paths.pop("/dev/dali/hid", None)
+        sim.shim.paths["/dev/dali/hid7"] = sim.dev
+        sim.dev.restore()
+
     async def main(sim):
         d = sim.driver
         d.exceptions_on_send = exceptions
         sim.world.at(t_fault, lambda: sim.dev.lose(mode if mode != "write" else "oserror", write_only=(mode == "write")))
         if restore is not None:
-            sim.world.at(t_fault + restore, sim.dev.restore)
+            if use_glob and i % 2:
+                res.hit("glob_renumbered")
+                sim.world.at(t_fault + restore, renumbered_restore)
+            else:
+                sim.world.at(t_fault + restore, sim.dev.restore)
             if second:
                 sim.world.at(t_fault + restore + 3.3, lambda: sim.dev.lose("eof"))
                 sim.world.at(t_fault + restore + 4.9, sim.dev.restore)
         d.connect()
         tasks = [asyncio.ensure_future(caller(c)) for c in range(n_callers)]
+        if with_sequence:
+            tasks.append(asyncio.ensure_future(seq_caller()))
+            res.hit("sequences_across_loss")
         # wait long enough for every reconnection attempt the limit allows and for the device to come back
         horizon = t_fault + (restore or 0) + 12.0
         while sim.world.now < horizon:
@@ -213,6 +247,17 @@ def loss_case(driver, seed, part, i, res, base_times):
             elif in_flight and exceptions and mode != "write":
                 # completed normally although the device vanished mid-send: only possible if all reports had arrived
                 pass
+        if with_sequence and "result" in seq_out:
+            st_, val_ = seq_out["result"]
+            if st_ == "exc" and not isinstance(val_, (CommunicationError, asyncio.CancelledError)):
+                res.violation(f"C17/{driver}/sequence-raised/{type(val_).__name__}", f"a sequence running across the loss raised {type(val_).__name__}: "
+                              f"{val_} (only CommunicationError is documented)", {**wit, "tb": short_tb(val_)})
+            elif st_ == "ok":
+                for c_, v_ in zip(seq_out["cmds"], val_ or []):
+                    problem = check_answer(driver, c_, v_, wire, t_from=0.0)
+                    if problem:
+                        res.violation(f"C17/{driver}/wrong-result/sequence-across-loss", f"sequence command {c_} {problem}", wit)
+                        break
         # --- a command that needs a device type keeps its ENABLE DEVICE TYPE prefix when it is retried after a reconnection
         own = [w_ for w_ in wire if w_["origin"] == "own"]
         dtcmds = {(len(cmd.frame), cmd.frame.as_integer): (cmd.devicetype, bool(cmd.sendtwice)) for (st, val, cmd, t0, t1) in outcomes.values()
